@@ -33,7 +33,7 @@ ASSUMPTIONS = [
     'CPython reference counting + gc.collect() make dropped holders disappear from the weak cache',
 ]
 BUDGET = {
-    'quick': {'examples': 900},
+    'quick': {'examples': 1500},
     'thorough': {'examples': 3000, 'shards': 8},
 }
 
